@@ -48,6 +48,8 @@ impl CmdOut {
 pub fn run_cmd(mut cmd: Command, timeout: Duration) -> std::io::Result<CmdOut> {
     use std::os::unix::process::{CommandExt, ExitStatusExt};
     cmd.stdin(Stdio::null()).stdout(Stdio::piped()).stderr(Stdio::piped());
+    // symbolising a backtrace for every reported error costs ~150 ms per failing command
+    cmd.env("RUST_BACKTRACE", "0").env_remove("RUST_LIB_BACKTRACE");
     unsafe {
         cmd.pre_exec(|| {
             libc::prctl(libc::PR_SET_PDEATHSIG, libc::SIGKILL);
